@@ -121,7 +121,7 @@ def record(pa, rng, count, rep):
             meta = {"custom": custom}
             if custom:
                 gta = sorted(rng.sample(["p", "q", "r", "s", "t"], rng.randint(2, 5)))
-                cats = sorted(set(rng.sample(["A", "B", "C", "D"], rng.randint(1, 4))))
+                cats = rng.sample(["B", "D", "A", "C"], rng.randint(1, 4))       # NOT alphabetical: the weights belong to this order
                 given = dict(count=[rng.choice([0.0, 1.5, 3.0]), rng.choice([0.0, 1.0, 2.5])],
                              gap=[rng.choice([0.0, 2.0, -1.0]), rng.choice([0.5, 3.0])],
                              dur=[rng.choice([0.0, 4.0, 1.0]), rng.choice([0.5, 2.0])])
@@ -173,10 +173,11 @@ def record(pa, rng, count, rep):
                 for d in draws:
                     if d[0] == "normal":
                         dr.append({"k": "normal", "mu": fx(d[1]), "sigma": fx(d[2]), "var": fx(d[2] * d[2]), "x": fx(d[3]),
-                                   "xt": int(d[3]) * K,      # integer part exactly (the unit count is int(x): rounding 1.9999 to 2.000 would lie)
+                                   "alist": [], "xt": int(d[3]) * K,      # integer part exactly (the unit count is int(x): rounding 1.9999 to 2.000 would lie)
                                    "xn": int(min(abs(d[3]) * 1e9, 2e9)), "r": 0, "p": []})      # floor: "< precision" stays exact
                     else:
                         dr.append({"k": "choice", "mu": 0, "sigma": 0, "var": 0, "x": 0, "xt": 0, "xn": 0, "r": catrank.get(d[3], 0),
+                                   "alist": [catrank.get(x, 0) for x in d[1]],        # the population the choice is made over, as ranks
                                    "p": [] if d[2] is None else [fx(x, 10000) for x in d[2]]})
                 sanns = [gta.index(a) + 1 if a in gta else 0 for a in smp.annotators]
                 sample = [[gta.index(a) + 1 if a in gta else 0, fx(u.segment.start), fx(u.segment.end), catrank.get(u.annotation, 0),
